@@ -285,6 +285,10 @@ pub enum HKey {
     Usize(usize),
     U64(u64),
     Str(String),
+    /// A user-defined signature function: the first word is the crate's hash of
+    /// the key, the second word is a coarse attribute of the key (seven values),
+    /// so that many distinct keys share sig[1] (signatures stay distinct).
+    Coarse(u64),
 }
 
 impl ToSig<[u64; 2]> for HKey {
@@ -293,6 +297,10 @@ impl ToSig<[u64; 2]> for HKey {
             HKey::Usize(x) => <usize as ToSig<[u64; 2]>>::to_sig(x, seed),
             HKey::U64(x) => <u64 as ToSig<[u64; 2]>>::to_sig(x, seed),
             HKey::Str(s) => <str as ToSig<[u64; 2]>>::to_sig(s.as_str(), seed),
+            HKey::Coarse(x) => {
+                let s = <u64 as ToSig<[u64; 2]>>::to_sig(x, seed);
+                [s[0], (x % 7).wrapping_mul(0x9E37_79B9_7F4A_7C15)]
+            }
         }
     }
 }
@@ -303,6 +311,7 @@ impl ToSig<[u64; 1]> for HKey {
             HKey::Usize(x) => <usize as ToSig<[u64; 1]>>::to_sig(x, seed),
             HKey::U64(x) => <u64 as ToSig<[u64; 1]>>::to_sig(x, seed),
             HKey::Str(s) => <str as ToSig<[u64; 1]>>::to_sig(s.as_str(), seed),
+            HKey::Coarse(x) => <u64 as ToSig<[u64; 1]>>::to_sig(x, seed),
         }
     }
 }
@@ -319,6 +328,7 @@ enum Kt {
     Usize,
     U64,
     Str,
+    Coarse,
 }
 
 impl Kt {
@@ -327,6 +337,7 @@ impl Kt {
             "usize" => Kt::Usize,
             "u64" => Kt::U64,
             "str" => Kt::Str,
+            "coarse" => Kt::Coarse,
             k => panic!("unknown key type {k}"),
         }
     }
@@ -335,6 +346,7 @@ impl Kt {
         match self {
             Kt::Usize => *key = HKey::Usize(kf.int_key(i) as usize),
             Kt::U64 => *key = HKey::U64(kf.int_key(i)),
+            Kt::Coarse => *key = HKey::Coarse(kf.int_key(i)),
             Kt::Str => {
                 if let HKey::Str(s) = key {
                     kf.str_key(i, s);
